@@ -171,3 +171,107 @@ theorem maAgg_step (A : Arith V F) (n : Nat) (hn : 0 < n) (vs : List V) (k : Nat
       rw [h2, hp]
 
 end Influx.Reducers.Lemmas
+
+namespace Influx.Reducers.Lemmas
+variable {V F : Type}
+
+/-- what the reducer emits right after aggregating point number `k` (0-based) -/
+def maOut (A : Arith V F) (n : Nat) (xs : List (Pt V)) (k : Nat) : List (Pt F) :=
+  if k + 1 < n then [] else
+  match xs[k]?, slideSum A n (xs.map (·.v)) (k + 1 - n) with
+  | some p, some s => [⟨p.t, A.fo.div (A.vo.toF s) (A.fo.ofInt n)⟩]
+  | _, _ => []
+
+theorem maRun_from (A : Arith V F) (n : Nat) (hn : 0 < n) (xs : List (Pt V)) :
+    ∀ (rest : List (Pt V)) (k : Nat) (s : MaSt V), MaInv A n (xs.map (·.v)) k s → xs.drop k = rest →
+      maRun A.vo A.fo n s rest = some ((List.range' k rest.length).flatMap (maOut A n xs)) := by
+  intro rest
+  induction rest with
+  | nil => intro k s _ _; simp [maRun]
+  | cons p ps ih =>
+    intro k s inv hdrop
+    have hk : xs[k]? = some p := by
+      have := congrArg List.head? hdrop
+      simpa [List.head?_drop] using this
+    have hv : (xs.map (·.v))[k]? = some p.v := by simp [hk]
+    obtain ⟨s', hagg, inv', htime⟩ := maAgg_step A n hn _ k s inv p hv
+    have hdrop' : xs.drop (k + 1) = ps := by
+      have := congrArg List.tail hdrop
+      simpa [List.tail_drop] using this
+    simp only [maRun, hagg, ih (k + 1) s' inv' hdrop', Option.map_some, List.length_cons,
+      List.range'_succ, List.flatMap_cons]
+    congr 2
+    -- the emission of this step
+    unfold maEmit maOut
+    have hlen := inv'.len
+    by_cases hlt : k + 1 < n
+    · have : s'.buf.length ≠ n := by omega
+      simp [this, hlt]
+    · have hl : s'.buf.length = n := by omega
+      have hs := inv'.sum_hi (by omega)
+      simp only [hl, ne_eq, not_true_eq_false, if_false, hlt, hk, hs, htime]
+
+theorem flatMap_range'_shift {β : Type} (f : Nat → List β) (s m : Nat) :
+    (List.range' s m).flatMap f = (List.range m).flatMap (fun i => f (s + i)) := by
+  rw [List.range'_eq_map_range, List.flatMap_map]
+
+theorem filterMap_eq_flatMap {α β : Type} (g : α → Option β) (l : List α) :
+    l.filterMap g = l.flatMap (fun a => (g a).toList) := by
+  induction l with
+  | nil => rfl
+  | cons a l ih => cases h : g a <;> simp [List.filterMap_cons, h, ih]
+
+theorem flatMap_nil_of {α β : Type} (f : α → List β) (l : List α) (h : ∀ a ∈ l, f a = []) :
+    l.flatMap f = [] := by
+  induction l with
+  | nil => rfl
+  | cons a l ih => simp [h a (by simp), ih (fun b hb => h b (by simp [hb]))]
+
+theorem flatMap_congr' {α β : Type} (f g : α → List β) (l : List α) (h : ∀ a ∈ l, f a = g a) :
+    l.flatMap f = l.flatMap g := by
+  induction l with
+  | nil => rfl
+  | cons a l ih => simp [h a (by simp), ih (fun b hb => h b (by simp [hb]))]
+
+/-- **moving_average(n)**, any arithmetic: the ring-buffer reducer emits exactly the
+    sliding-window definition (never indexes out of range for `n ≥ 1`). -/
+theorem movingAverage_eq_def (A : Arith V F) (n : Nat) (hn : 0 < n) (xs : List (Pt V)) :
+    movingAverage A.vo A.fo n xs = some (movingAverageDef A n xs) := by
+  unfold movingAverage
+  rw [maRun_from A n hn xs xs 0 _ (maInv_init A n _) (by simp)]
+  congr 1
+  unfold movingAverageDef
+  rw [filterMap_eq_flatMap]
+  -- split the steps into the first n-1 (nothing emitted) and the rest
+  by_cases hlen : xs.length + 1 ≤ n
+  · have h0 : xs.length + 1 - n = 0 := by omega
+    rw [h0]
+    simp only [List.range_zero, List.flatMap_nil]
+    apply flatMap_nil_of
+    intro k hk
+    have : k < xs.length := by simpa using (List.mem_range'_1.mp hk).2
+    simp [maOut, show k + 1 < n by omega]
+  · have hsplit : List.range' 0 xs.length = List.range' 0 (n - 1) ++ List.range' (n - 1) (xs.length + 1 - n) := by
+      have := List.range'_append_1 (s := 0) (m := n - 1) (n := xs.length + 1 - n)
+      simp only [Nat.zero_add] at this
+      rw [this]
+      congr 1
+      omega
+    rw [hsplit, List.flatMap_append]
+    have hfirst : (List.range' 0 (n - 1)).flatMap (maOut A n xs) = [] := by
+      apply flatMap_nil_of
+      intro k hk
+      have : k < n - 1 := by simpa using (List.mem_range'_1.mp hk).2
+      simp [maOut, show k + 1 < n by omega]
+    rw [hfirst, List.nil_append, flatMap_range'_shift]
+    apply flatMap_congr'
+    intro i _
+    obtain ⟨j, hj⟩ : ∃ j, j = n - 1 + i := ⟨_, rfl⟩
+    rw [← hj]
+    have h1 : ¬ (j + 1 < n) := by omega
+    have h2 : j + 1 - n = i := by omega
+    have h3 : i + n - 1 = j := by omega
+    simp only [maOut, h1, if_false, h2, h3]
+    cases xs[j]? <;> cases slideSum A n (xs.map (·.v)) i <;> rfl
+
+end Influx.Reducers.Lemmas
